@@ -85,7 +85,13 @@ class IntShim(metaclass=_IntMeta):
         else:
             els = [_int_to_elt(x) for x in b]
         if signed:
-            raise Unsupported("signed from_bytes")
+            u = IntShim.from_bytes(b, byteorder)
+            nbits = 8 * len(els)
+            if isinstance(u, _int):
+                return u - (1 << nbits) if nbits and u >> (nbits - 1) else u
+            if isinstance(u, SymInt) and nbits <= W - 2:
+                return u - ((u >> (nbits - 1)) << nbits)
+            raise Unsupported("signed from_bytes of %d bytes" % len(els))
         if byteorder == "little":
             els = els[::-1]
         if _all_concrete(els):
